@@ -305,6 +305,7 @@ func menu(w *chain.World) []chain.Action {
 	return []chain.Action{
 		chain.V1Pay(true, 2), chain.V1Chain(), chain.V1SF(true), chain.V1Form(1, 2, 100), chain.V1Revise("pay"), chain.V1Proof(false),
 		chain.V2Pay(chain.AddrV2, true, 2), chain.V2Chain(chain.AddrV2), chain.V2SF(true), chain.V2Form(1, 2, 100), chain.V2Form(0, 1, 10), chain.V2Revise("pay"), chain.V2Renew("partial"), chain.V2Proof(), chain.V2Expire(), chain.V2Attest(),
+		chain.MixedChain(), // a v2 transaction spending what a v1 transaction of the same block created
 		// same-block interactions (several MidState code paths per element): the purity bundle incl. the decode(encode()) copy runs on them too
 		chain.Seq("v1revise-twice", chain.V1Revise("pay"), chain.V1Revise("grow")), chain.Seq("v1revise+proof", chain.V1Revise("pay"), chain.V1Proof(false)), chain.Seq("v1form+revise", chain.V1Form(1, 2, 100), chain.V1Revise("pay")),
 		chain.Seq("v2revise-twice", chain.V2Revise("pay"), chain.V2Revise("keys")), chain.Seq("v2form+revise", chain.V2Form(1, 2, 100), chain.V2Revise("pay")), chain.Seq("v2revise+renew", chain.V2Revise("pay"), chain.V2Renew("none")),
